@@ -20,6 +20,10 @@ def run(ctx):
         # short-lived clients hang up with requests in flight while others connect and query
         ("client-churn-3x1", ["-random", n(900, 4000), "-nodes", "3", "-numconns", "1", "-clients", "4", "-workers", "4", "-round", "300", "-delay", "3",
                               "-churn", "12", "-okbias", "4", "-nodrops"], False),
+        # requests the proxy answers itself (reads of system.local, one alias each), pipelined in bursts of one write
+        # next to forwarded traffic: the proxy's own answers must not be swapped between streams either
+        ("local-bursts-3x1", ["-random", n(300, 2000), "-nodes", "3", "-numconns", "1", "-clients", "3", "-workers", "4", "-round", "150", "-delay", "2",
+                              "-localbursts", "3", "-okbias", "4", "-nodrops"], False),
         ("scripted-3x1", ["-nodes", "3", "-numconns", "1", "-clients", "4", "-workers", "4", "-round", "160"], True),
     ]
     rf.run_property(ctx, "C02", plans, nscen=300)
